@@ -29,29 +29,26 @@ pub struct CoreCase {
 
 /// numeric tokens of a text: decimal runs and hex runs (with or without 0x)
 fn tokens(text: &str) -> Vec<u64> {
+    // numeric tokens = whole alphanumeric words that are numbers: decimal digits, or hex digits
+    // (optionally after 0x, at least five of them). A run of hex digits *inside* an identifier is
+    // not a number: "Isaac64Core" contains "aac64C", which once coincided with a 24-bit half of an
+    // output word and raised a false alarm in a thorough run (section 12).
     let mut out = Vec::new();
-    let bytes: Vec<char> = text.chars().collect();
-    let mut i = 0;
-    while i < bytes.len() {
-        if bytes[i].is_ascii_hexdigit() {
-            let mut j = i;
-            while j < bytes.len() && (bytes[j].is_ascii_hexdigit() || bytes[j] == '_') {
-                j += 1;
+    for word in text.split(|c: char| !(c.is_ascii_alphanumeric() || c == '_')) {
+        let w = word.strip_prefix("0x").or_else(|| word.strip_prefix("0X")).unwrap_or(word);
+        let tok: String = w.chars().filter(|c| *c != '_').collect();
+        if tok.is_empty() {
+            continue;
+        }
+        if tok.chars().all(|c| c.is_ascii_digit()) {
+            if let Ok(v) = tok.parse::<u64>() {
+                out.push(v);
             }
-            let tok: String = bytes[i..j].iter().filter(|c| **c != '_').collect();
-            if tok.chars().all(|c| c.is_ascii_digit()) {
-                if let Ok(v) = tok.parse::<u64>() {
-                    out.push(v);
-                }
+        }
+        if tok.len() >= 5 && tok.chars().all(|c| c.is_ascii_hexdigit()) {
+            if let Ok(v) = u64::from_str_radix(&tok, 16) {
+                out.push(v);
             }
-            if tok.len() >= 5 {
-                if let Ok(v) = u64::from_str_radix(&tok, 16) {
-                    out.push(v);
-                }
-            }
-            i = j.max(i + 1);
-        } else {
-            i += 1;
         }
     }
     out
